@@ -275,8 +275,8 @@ class Tripwires:
 
 
 # ------------------------------------------------------------------- window
-_OS_FUNCS = ("stat", "lstat", "getcwd", "chdir", "readlink", "listdir", "mkdir", "unlink", "remove", "rmdir", "rename", "replace", "access")
-_UNMODELLED = ("scandir", "walk", "open", "makedev", "symlink", "link", "truncate", "chmod", "chown", "utime", "mkfifo", "statvfs", "getcwdb", "fwalk")
+_OS_FUNCS = ("stat", "lstat", "getcwd", "chdir", "readlink", "listdir", "mkdir", "unlink", "remove", "rmdir", "rename", "replace", "access", "open", "write", "read", "close", "fsync", "fdatasync", "fstat", "utime", "scandir", "fdopen")
+_UNMODELLED = ("makedev", "symlink", "link", "truncate", "ftruncate", "chmod", "chown", "mkfifo", "statvfs", "getcwdb", "fwalk", "lseek", "dup", "dup2", "pipe", "sendfile")
 
 
 class Window:
@@ -313,6 +313,17 @@ class Window:
         os.rename = fs.rename
         os.replace = fs.rename
         os.access = fs.access
+        real_write, real_read, real_close, real_fsync, real_fstat = sv["os.write"], sv["os.read"], sv["os.close"], sv["os.fsync"], sv["os.fstat"]
+        os.open = fs.os_open
+        os.write = lambda fd, data: fs.os_write(fd, data) if fd >= fs.FD_BASE else real_write(fd, data)
+        os.read = lambda fd, n: fs.os_read(fd, n) if fd >= fs.FD_BASE else real_read(fd, n)
+        os.close = lambda fd: fs.os_close(fd) if fd >= fs.FD_BASE else real_close(fd)
+        os.fsync = lambda fd: fs.os_fsync(fd) if (not isinstance(fd, int) or fd >= fs.FD_BASE) else real_fsync(fd)
+        os.fdatasync = os.fsync
+        os.fstat = lambda fd: fs.os_fstat(fd) if fd >= fs.FD_BASE else real_fstat(fd)
+        os.utime = fs.utime
+        os.scandir = fs.scandir
+        os.fdopen = lambda fd, *a, **k: fs.fdopen(fd, *a, **k) if fd >= fs.FD_BASE else sv["os.fdopen"](fd, *a, **k)
 
         def unmodelled(name):
             def f(*a, **k):
